@@ -9,6 +9,7 @@ import (
 	"strconv"
 	"strings"
 	"sync"
+	"sync/atomic"
 	"time"
 
 	"go.opentelemetry.io/collector/component"
@@ -59,6 +60,12 @@ type c01Inc struct {
 	gate     *simkit.Gate
 	shutdown *simkit.Task
 	started  bool
+	// yg: goroutines parked at a storage operation they issue while the queue's mutex is free (none on a tree that
+	// does all its storage I/O inside the queue's critical sections)
+	yg     *simkit.Gate
+	ygSeq  int
+	noPark atomic.Bool // a call made on the scheduler's own goroutine is in progress
+	probe  *lockProbe
 }
 
 type c01Life struct {
@@ -127,7 +134,19 @@ func (l *c01Life) startInc() {
 		if cp, ok := l.plan[ord]; ok {
 			inc.CrashAt, inc.CrashAfter = cp.K, cp.After
 		}
-		ci := &c01Inc{ord: ord, inc: inc, gate: simkit.NewGate()}
+		ci := &c01Inc{ord: ord, inc: inc, gate: simkit.NewGate(), yg: simkit.NewGate()}
+		ci.noPark.Store(true)
+		inc.Before = func(ops []string) {
+			if ci.noPark.Load() || !ci.probe.free() || inc.Fenced() {
+				return
+			}
+			l.mu.Lock()
+			ci.ygSeq++
+			n := ci.ygSeq
+			l.mu.Unlock()
+			l.r.Count("fault.parked_at_storage_call_outside_queue_lock")
+			ci.yg.Park(fmt.Sprintf("yield:storage#%d:%s", n, shapeOf("#0.0 "+strings.Join(ops, " "))))
+		}
 		l.incs = append(l.incs, ci)
 		l.cur = ci
 		pusher := func(ctx context.Context, ld plog.Logs) error {
@@ -197,6 +216,10 @@ func (l *c01Life) startInc() {
 			panic(err)
 		}
 		ci.exp = exp
+		ci.probe = findLockProbe(exp, "persistentQueue")
+		if ci.probe != nil {
+			l.r.Count("probe.queue_lock_probe_attached")
+		}
 		host := &simHost{ext: map[component.ID]component.Component{storageID: inc}}
 		l.logf("-- incarnation %d starts (disk keys %v)", ord, l.disk.Keys())
 		if err := exp.Start(context.Background(), host); err != nil {
@@ -204,6 +227,7 @@ func (l *c01Life) startInc() {
 		}
 		ci.started = true
 		l.r.Settle()
+		ci.noPark.Store(false)
 		if !inc.Fenced() {
 			return
 		}
@@ -240,11 +264,12 @@ func (l *c01Life) bury(ci *c01Inc) {
 	}
 	for i := 0; i < 100; i++ {
 		ci.gate.ReleaseAll(errZombie)
+		ci.yg.ReleaseAll(nil)
 		if ci.shutdown == nil {
 			ci.shutdown = simkit.Go("zombie-shutdown", func(t *simkit.Task) { t.Err = ci.exp.Shutdown(context.Background()) })
 		}
 		l.r.Settle()
-		if ci.shutdown.Done() && len(ci.gate.Parked()) == 0 {
+		if ci.shutdown.Done() && len(ci.gate.Parked()) == 0 && len(ci.yg.Parked()) == 0 {
 			return
 		}
 		l.r.Advance(c01Backoff)
@@ -326,6 +351,25 @@ func (l *c01Life) answerOldest(outcome error) bool {
 	return true
 }
 
+// releaseParked lets the oldest goroutine parked at a storage call continue (false: none is parked).
+func (l *c01Life) releaseParked() bool {
+	ids := l.cur.yg.Parked()
+	if len(ids) == 0 {
+		return false
+	}
+	id, best := ids[0], 1<<62
+	for _, x := range ids {
+		var n int
+		if k, _ := fmt.Sscanf(x, "yield:storage#%d:", &n); k == 1 && n < best {
+			id, best = x, n
+		}
+	}
+	l.logf("op@%d release %s", l.cur.ord, id)
+	l.cur.yg.Release(id, nil)
+	l.r.Settle()
+	return true
+}
+
 func outcomeOf(c byte) error {
 	switch c {
 	case 'p':
@@ -347,6 +391,9 @@ func (l *c01Life) gracefulStop(inflight byte) {
 		if ci.shutdown.Done() {
 			return
 		}
+		if l.releaseParked() {
+			continue
+		}
 		if !l.answerOldest(outcomeOf(inflight)) {
 			l.r.Advance(c01Backoff)
 		}
@@ -366,7 +413,9 @@ func (l *c01Life) run() {
 			ld, b := mkLogs(id)
 			l.payload[id] = b
 			l.recOf[id] = ld.LogRecordCount()
+			l.cur.noPark.Store(true)
 			err := l.cur.exp.ConsumeLogs(context.Background(), ld)
+			l.cur.noPark.Store(false)
 			ack := err == nil && !l.cur.inc.Fenced()
 			if ack {
 				l.acked[id] = true
@@ -375,6 +424,8 @@ func (l *c01Life) run() {
 			l.r.Settle()
 		case 'A':
 			l.answerOldest(outcomeOf(op[1]))
+		case 'Y':
+			l.releaseParked()
 		case 'T':
 			l.logf("op@%d advance %v", l.cur.ord, c01Backoff)
 			l.r.Advance(c01Backoff)
@@ -393,6 +444,10 @@ func (l *c01Life) run() {
 		l.checkCrash()
 		l.r.Settle()
 		if l.cur.inc.Fenced() {
+			continue
+		}
+		if l.releaseParked() {
+			idle = 0
 			continue
 		}
 		if l.answerOldest(nil) {
@@ -490,7 +545,7 @@ func c01Config(tp *simkit.Tape) c01Cfg {
 	}
 	c.StartIndex = []uint64{0, 0, 254, 65534, 4294967294, 1<<53 - 2, 1<<62 - 1}[tp.Draw(7)]
 	n := tp.Range(3, 10)
-	ops := []string{"E", "Ao", "Ap", "At", "T", "Ro", "Rt"}
+	ops := []string{"E", "Ao", "Ap", "At", "T", "Ro", "Rt", "Y"}
 	if tp.Chance(1, 10) {
 		// wide: many consumers, all busy - the list of dispatched items gets long and completions come out of order
 		c.Mode = "plan"
@@ -502,12 +557,12 @@ func c01Config(tp *simkit.Tape) c01Cfg {
 		}
 		n = tp.Range(2, 7)
 		for i := 0; i < n; i++ {
-			c.Script = append(c.Script, ops[tp.Weighted(1, 6, 1, 1, 1, 1, 1)])
+			c.Script = append(c.Script, ops[tp.Weighted(1, 6, 1, 1, 1, 1, 1, 1)])
 		}
 		return c
 	}
 	for i := 0; i < n; i++ {
-		op := ops[tp.Weighted(6, 3, 1, 2, 1, 1, 1)]
+		op := ops[tp.Weighted(6, 3, 1, 2, 1, 1, 1, 1)]
 		c.Script = append(c.Script, op)
 	}
 	return c
